@@ -3,7 +3,7 @@ import ScryerModel.Proofs.Random
 namespace Scryer.Random
 
 /-- every value accepted by rand's rejection loop is below `range`. -/
-theorem C52_sampleLoop_lt (w : Width) (s : Stream) (range zn fuel p : Nat) (r : Nat × Nat)
-    (h : sampleLoop w s range zn fuel p = some r) : r.1 < range := (sampleLoop_lt w s range zn fuel p r h).1
+theorem C52_sampleLoop_lt (w : Width) (s : Stream) (range zn fuel p : Nat) (r : Nat × Nat) (hr : 0 < range)
+    (h : sampleLoop w s range zn fuel p = some r) : r.1 < range := (sampleLoop_lt w s range zn hr fuel p r h).1
 
 end Scryer.Random
